@@ -93,8 +93,9 @@ def strategy(tier):
         _block_strategy(), ver, ver, st.integers(0, 200), st.integers(0, 65535), st.integers(0, 255), st.integers(0, 255),
         st.integers(0, 255), st.integers(0, 255), name, st.integers(0, 255), st.integers(0, 255))
     length = st.one_of(st.integers(1, 1024), st.sampled_from([1, 38, 39, 40, 78, 117, 273, 1024]))
-    b = st.builds(lambda blk, s, ln, full: {"part": "B", "block": blk, "start": s, "len": ln, "handshake": full},
-                  _block_strategy(), st.one_of(st.just(0), st.integers(0, 1023)), length, st.sampled_from([False, False, False, True]))
+    ver8 = st.tuples(st.integers(0, 65535), st.integers(0, 255), st.integers(0, 255)).map(list)
+    b = st.builds(lambda blk, s, ln, full, en, co: dict({"part": "B", "block": blk, "start": s, "len": ln, "handshake": full}, **({"en": en, "co": co} if full else {})),
+                  _block_strategy(), st.one_of(st.just(0), st.integers(0, 1023)), length, st.sampled_from([False, False, False, True]), ver8, ver8)
     return st.one_of(a, b, b)
 
 
@@ -248,13 +249,13 @@ def _part_a(res, case):
 # ------------------------------------------------------------------ part B
 
 
-def _fake_snapshot(block, label="inXM", cv=9, lv=9):
+def _fake_snapshot(block, label="inXM", cv=9, lv=9, en=(88, 15, 0), co=(89, 11, 0)):
     from geckolib.utils.snapshot import GeckoSnapshot
 
     s = GeckoSnapshot()
     s._pack_type = label
     s._config_version, s._log_version = str(cv), str(lv)
-    s._intouch_EN, s._intouch_CO = ("88", "15", "0"), ("89", "11", "0")
+    s._intouch_EN, s._intouch_CO = tuple(str(x) for x in en), tuple(str(x) for x in co)
     s._bytes = block
     return s
 
@@ -269,9 +270,12 @@ def _part_b(res, case):
         start, length = 0, 1024
     if not (0 <= start and 1 <= length and start + length <= 1024):
         raise InvalidCase(case)
-    sim = vworld.make_simulator(_fake_snapshot(block))
+    en = [int(x) for x in case.get("en", [88, 15, 0])]
+    co = [int(x) for x in case.get("co", [89, 11, 0])]
+    sim = vworld.make_simulator(_fake_snapshot(block, en=en, co=co))
     sim.structure.set_status_block(block)
     eng = stepped.Engine()
+    chain = None
     with eng.patched():
         with _Capture() as cap:
             if full:
@@ -292,12 +296,49 @@ def _part_b(res, case):
                 eng.run()
                 if req in sock._receive_handlers or not struct.had_at_least_one_block:
                     raise SetupFailed("fault-free blocking transfer did not complete")
+        if full:
+            # the whole capture/replay chain: snapshot -> simulator -> real blocking client -> the shell's snapshot command run on
+            # that client -> parser: firmware tuples, versions and bytes must be the ones the simulated spa was loaded with
+            from geckolib.utils.shell import GeckoShell
+
+            class StubShell:
+                version_strings = GeckoShell.version_strings
+
+                def __init__(self):
+                    self.facade = types.SimpleNamespace(spa=spa)
+
+            try:
+                with _Capture() as cap2:
+                    GeckoShell.do_snapshot(StubShell(), "replayed")
+                chain = cap2.text()
+            except Exception as exc:  # noqa
+                is_lib, site = classify_exception(exc)
+                if not is_lib:
+                    raise
+                res.fail(f"C19|chain|writer-raises|{site}", f"snapshot command on the connected blocking client raised {type(exc).__name__}: {exc}")
+    if chain is not None:
+        snaps2 = _parse_text(res, chain, "chain")
+        if snaps2 is not None:
+            if len(snaps2) != 1:
+                res.fail("C19|chain|count", f"{len(snaps2)} snapshots parsed from the snapshot command of a connected client")
+            else:
+                s2 = snaps2[0]
+                for what, fn, exp in (("bytes", lambda: s2.bytes, block), ("intouch_EN", lambda: s2.intouch_EN, tuple(en)),
+                                      ("intouch_CO", lambda: s2.intouch_CO, tuple(co)),
+                                      ("config_version", lambda: s2.config_version, 9), ("log_version", lambda: s2.log_version, 9)):
+                    try:
+                        got = fn()
+                    except Exception as exc:  # noqa
+                        got = exc
+                    if got != exp:
+                        res.fail(f"C19|chain|{what}", f"the simulated spa was loaded with {what} = {'<block>' if what == 'bytes' else repr(exp)}; after client connect, "
+                                 f"snapshot command and parse it is {'<a different block>' if what == 'bytes' else repr(got)}")
     text = cap.text()
     nseg = sum(1 for ln in cap.lines if "<DATAS>STATV" in ln)
     snaps = _parse_text(res, text, "traffic")
     if snaps is None:
         return block, nseg
-    conns = [s for s in snaps if s.name == "Connection found"]
+    conns = [s_ for s_ in snaps if s_.name == "Connection found"]
     if len(conns) != 1:
         res.fail("C19|traffic|count", f"{len(conns)} connections (of {len(snaps)} snapshots) parsed from one connection log")
         return block, nseg
